@@ -8,6 +8,7 @@ import (
 	"math"
 	"sort"
 	"strconv"
+	"time"
 	"unicode/utf8"
 
 	"github.com/ohler55/ojg"
@@ -95,6 +96,8 @@ func Enc(v any) any {
 		return map[string]any{"i": strconv.Itoa(tv)}
 	case float64:
 		return map[string]any{"f": strconv.FormatFloat(tv, 'g', -1, 64)}
+	case time.Time:
+		return map[string]any{"time": strconv.FormatInt(tv.UnixNano(), 10)}
 	case string:
 		if utf8.ValidString(tv) {
 			return map[string]any{"t": tv}
@@ -139,6 +142,10 @@ func Dec(v any) any {
 		}
 		if s, ok := tv["t"].(string); ok {
 			return s
+		}
+		if s, ok := tv["time"].(string); ok {
+			n, _ := strconv.ParseInt(s, 10, 64)
+			return time.Unix(0, n).UTC()
 		}
 		if s, ok := tv["s"].(string); ok {
 			b, _ := base64.StdEncoding.DecodeString(s)
